@@ -30,6 +30,15 @@ Programs3Focus ==
 Programs3Quick == { p \in Programs3Focus :
                       \/ (p.kind[A2] = "task" /\ p.ins[A3] = {<<A2, "s.v">>})           \* the two chains ending in a task / an analysis
                       \/ (p.kind[A3] = "task" /\ p.kind[A2] = "task" /\ p.ins[A3] = {<<A1, "s.w">>, <<A2, "s.v">>}) }
+(* programs for the dispatch-fault instance: an analysis and a task that land in the same batch *)
+Programs3Fault ==
+  { [kind |-> (A1 :> k[1] @@ A2 :> k[2] @@ A3 :> k[3]),
+     ins  |-> (A1 :> {} @@ A2 :> i[1] @@ A3 :> i[2]),
+     vals |-> (A1 :> V(A1) @@ A2 :> V(A2) @@ A3 :> V(A3))] :
+       k \in { <<"task", "analysis", "task">>, <<"analysis", "task", "task">> },
+       i \in { <<{<<A1, "s.v">>}, {<<A1, "s.v">>}>>,       \* fork  a -> b, a -> c
+               <<{}, {<<A2, "s.v">>}>> } }                  \* a alone, b -> c
+ProgramsChain == { p \in Programs3Focus : p.kind[A2] = "task" /\ p.kind[A3] = "task" /\ p.ins[A3] = {<<A2, "s.v">>} }   \* a -> b -> c, tasks
 (* task-only programs with value-level declarations: executed end to end by the real worker code *)
 Programs3Task == Progs3({"task"}, Pairs)
 Progs4(K, P(_)) ==
